@@ -149,7 +149,11 @@ def iter_method(I, it, name):
             n = a[0]
             if n != n or math.isinf(n) or n != int(n) or n < 0:
                 I.throw("ValueError")
-            return Stream(s_skip(I, it, int(n)))
+            # convention (observed): skip is eager, it consumes its n elements when it is created
+            k = 0
+            while k < int(n) and it.next():
+                k += 1
+            return Stream(s_skip(I, it, 0))
         return m(skip, 1, 1, [NUM])
     if name == "zip":
         return m(lambda a: Stream(s_zip(I, [it] + [stream_of(I, x) for x in a])), 0, None, [ANY])
